@@ -458,6 +458,10 @@ def configs(tier):
                     budgets = [(3, 3)]
                 elif mx == 3 and (njobs >= 4 or fork):
                     budgets = [(1, 3)]
+                if name.startswith(("exit-", "longexit-", "long-exit-")) or name == "long-short-short-release-close":
+                    # the scripts of rounds 4-6 (jobs that end their worker, failing thread starts): with the full thorough budgets the
+                    # tier did not finish within 25 minutes; they run with two preemptions (one for the three-worker pools)
+                    budgets = [(2, 2)] if mx <= 2 else [(1, 2)]
             for (p, r) in budgets:
                 out.append({"script": name, "min": mn, "max": mx, "p": p, "r": r, "horizon": 3000})
                 if name in ("long-long-release-short-close", "long-short-release-close") and mx <= 2 and mn == 1:
